@@ -1,8 +1,134 @@
 (** C16 -- shared gRPC connections are reference-counted correctly.
-    Only the property theorems, each closed by [exact] of a lemma proved in
-    Conn/ConnProofs.v, with [Print Assumptions] beneath. *)
-From Gnmi Require Import Conn.ConnLts Conn.ConnProofs.
 
-Theorem C16_init_not_panicked : panicked init = false.
-Proof. exact init_not_panicked. Qed.
-Print Assumptions C16_init_not_panicked.
+    Only the property theorems, each closed by [exact] of a lemma proved in
+    Conn/ConnProofs.v, with [Print Assumptions] beneath.  They are stated over
+    the labelled transition system of Conn/ConnLts.v (one label per critical
+    section / channel operation of connection.go), for every reachable state,
+    i.e. for every interleaving of requests, releases, cancellations and
+    dialer steps over any number of threads and addresses and every choice of
+    dial outcomes.  Non-vacuity: ConnProofs.ex_shared, ex_closed, ex_fresh,
+    ex_failed, ex_two_dials, ex_failing_window. *)
+From Coq Require Import List ZArith Arith.
+From Gnmi Require Import Conn.ConnLts Conn.ConnCheck Conn.ConnProofs.
+
+(** one_dial_in_flight *)
+Theorem C16_one_attempt_per_address :
+  forall s c1 c2 a, reachable s -> pending s c1 a -> pending s c2 a -> c1 = c2.
+Proof. exact one_attempt_per_address. Qed.
+Print Assumptions C16_one_attempt_per_address.
+
+Theorem C16_one_dial_in_flight :
+  forall s c1 c2 o1 o2, reachable s -> objs s c1 = Some o1 -> objs s c2 = Some o2 ->
+  c_ds o1 = DInDial -> c_ds o2 = DInDial -> c_addr o1 = c_addr o2 -> c1 = c2.
+Proof. exact one_dial_in_flight. Qed.
+Print Assumptions C16_one_dial_in_flight.
+
+Theorem C16_request_joins_pending_attempt :
+  forall s c a i k s', reachable s -> pending s c a -> cancelled s i = false ->
+  step s (LReq i a k) = Some s' ->
+  dial_log s' = dial_log s /\
+  (forall c', objs s c' = None -> objs s' c' = None) /\
+  exists t, thr s' i = Some t /\ t_obj t = Some c /\ t_pc t = PJoined.
+Proof. exact request_joins_pending_attempt. Qed.
+Print Assumptions C16_request_joins_pending_attempt.
+
+(** share_outcome *)
+Theorem C16_share_outcome :
+  forall s i j ti tj c r r', reachable s -> thr s i = Some ti -> thr s j = Some tj ->
+  t_obj ti = Some c -> t_obj tj = Some c -> t_pc ti = PRet r -> t_pc tj = PRet r' -> r = r'.
+Proof. exact share_outcome. Qed.
+Print Assumptions C16_share_outcome.
+
+Theorem C16_returned_handle_is_the_attempts :
+  forall s i t c h, reachable s -> thr s i = Some t -> t_obj t = Some c -> t_pc t = PRet (RConn h) ->
+  h = Some c /\ exists o, objs s c = Some o /\ c_addr o = t_addr t /\ c_cc o = Some c.
+Proof. exact returned_handle_is_the_attempts. Qed.
+Print Assumptions C16_returned_handle_is_the_attempts.
+
+(** no_use_after_close *)
+Theorem C16_no_use_after_close :
+  forall s i c, reachable s -> holds_at s c i = true -> ~ In c (close_log s).
+Proof. exact no_use_after_close. Qed.
+Print Assumptions C16_no_use_after_close.
+
+Theorem C16_no_use_after_close_returned :
+  forall s i t h, reachable s -> thr s i = Some t -> t_pc t = PRet (RConn (Some h)) ->
+  t_once t = false -> ~ In h (close_log s).
+Proof. exact no_use_after_close_returned. Qed.
+Print Assumptions C16_no_use_after_close_returned.
+
+(** closed_exactly_once *)
+Theorem C16_closed_at_most_once :
+  forall s h, reachable s -> (count_occ Nat.eq_dec (close_log s) h <= 1)%nat.
+Proof. exact closed_at_most_once. Qed.
+Print Assumptions C16_closed_at_most_once.
+
+Theorem C16_closed_iff_no_holder :
+  forall s c o, reachable s -> objs s c = Some o -> c_cc o = Some c ->
+  (holders s c = 0%nat <-> count_occ Nat.eq_dec (close_log s) c = 1%nat) /\
+  (holders s c = 0%nat <-> conns s (c_addr o) <> Some c).
+Proof. exact closed_iff_no_holder. Qed.
+Print Assumptions C16_closed_iff_no_holder.
+
+Theorem C16_last_release_closes :
+  forall s i t c h s', reachable s -> thr s i = Some t -> t_obj t = Some c ->
+  t_pc t = PRet (RConn h) -> t_once t = false -> holders s c = 1%nat ->
+  step s (LRelease i) = Some s' ->
+  In c (close_log s') /\ conns s' (t_addr t) = None /\ panicked s' = false.
+Proof. exact last_release_closes. Qed.
+Print Assumptions C16_last_release_closes.
+
+(** forgotten_then_fresh *)
+Theorem C16_closed_is_forgotten :
+  forall s h o, reachable s -> In h (close_log s) -> objs s h = Some o -> conns s (c_addr o) <> Some h.
+Proof. exact closed_is_forgotten. Qed.
+Print Assumptions C16_closed_is_forgotten.
+
+Theorem C16_fresh_dial_when_no_entry :
+  forall s i a s', reachable s -> conns s a = None -> cancelled s i = false ->
+  step s (LReq i a true) = Some s' ->
+  conns s' a = Some i /\
+  exists s'', step s' (LSpawn i) = Some s'' /\ dial_log s'' = (i, a) :: dial_log s.
+Proof. exact fresh_dial_when_no_entry. Qed.
+Print Assumptions C16_fresh_dial_when_no_entry.
+
+(** double_release_noop, release_after_failure_noop *)
+Theorem C16_double_release_noop :
+  forall s i t, reachable s -> thr s i = Some t -> t_once t = true -> step s (LRelease i) = Some s.
+Proof. exact double_release_noop. Qed.
+Print Assumptions C16_double_release_noop.
+
+Theorem C16_release_after_failure_noop :
+  forall s i t e, reachable s -> thr s i = Some t -> t_pc t = PRet (RErr e) -> step s (LRelease i) = Some s.
+Proof. exact release_after_failure_noop. Qed.
+Print Assumptions C16_release_after_failure_noop.
+
+(** remove_precondition *)
+Theorem C16_never_panics : forall s, reachable s -> panicked s = false.
+Proof. exact never_panics. Qed.
+Print Assumptions C16_never_panics.
+
+Theorem C16_remove_finds_own_entry_on_failure :
+  forall s c o e, reachable s -> objs s c = Some o -> c_ds o = DFailing e -> conns s (c_addr o) = Some c.
+Proof. exact remove_finds_own_entry_on_failure. Qed.
+Print Assumptions C16_remove_finds_own_entry_on_failure.
+
+Theorem C16_remove_finds_own_entry_on_release :
+  forall s i t c h o, reachable s -> thr s i = Some t -> t_obj t = Some c -> t_pc t = PRet (RConn h) ->
+  t_once t = false -> objs s c = Some o -> conns s (c_addr o) = Some c.
+Proof. exact remove_finds_own_entry_on_release. Qed.
+Print Assumptions C16_remove_finds_own_entry_on_release.
+
+(** no waiter is stuck (deadlock freedom of the wait on [ready]) *)
+Theorem C16_waiter_progress :
+  forall s i t c, reachable s -> thr s i = Some t -> t_pc t = PWaiting -> t_obj t = Some c ->
+  exists l s', step s l = Some s' /\
+    (l = LWait i \/ l = LSpawn c \/ l = LDialRet c true \/ l = LFailLock c \/ l = LFailReady c).
+Proof. exact waiter_progress. Qed.
+Print Assumptions C16_waiter_progress.
+
+(** the model replayed by the correspondence check is this transition system *)
+Theorem C16_check_model_states_reachable :
+  forall es, Forall reachable (mstates init es).
+Proof. exact check_model_states_reachable. Qed.
+Print Assumptions C16_check_model_states_reachable.
